@@ -375,7 +375,7 @@ func c18Verify(c *Ctx, dec *ssa.Function) {
 		sc := "slice(obj(alloc<[2]*ed.Scalar>, store(iaddr(self, 0), load(faddr<#2>(" + D + "))), store(iaddr(self, 1), load(faddr<#1>(" + D + ")))), 0, none)"
 		pt := "slice(obj(alloc<[2]*ed.Point>, store(iaddr(self, 0), " + H + "), store(iaddr(self, 1), $Vself)), 0, none)"
 		V := "obj(alloc<ed.Point>, call<(*ed.Point).Negate>(self, load(faddr<#0>(" + D + "))), call<(*ed.Point).VarTimeMultiScalarMult>(self, " + sc + ", " + pt + "))"
-		want := "call<*>(p0, call<(*ed.Point).Bytes>(" + H + "), load(faddr<#0>(" + D + ")), " + U + ", " + V + ")"
+		want := "call<*>(p0, alt(call<(*ed.Point).Bytes>(" + H + "), " + H + "), load(faddr<#0>(" + D + ")), " + U + ", " + V + ")"
 		bd, ok := ana.MatchX(c.P, want, chalTerm)
 		okV := false
 		if ok {
@@ -574,7 +574,7 @@ func c18Hashes(c *Ctx, dec *ssa.Function) {
 				continue
 			}
 			t := b.Of(e.Results[0], e.Instr)
-			hist := "obj(call<crypto/sha512.New>, " + hw(glob("suiteString")) + ", " + hw(glob("challengeGenerationDomainSeparatorFront")) + ", " + hw("p0") + ", " + hw("p1") + ", " +
+			hist := "obj(call<crypto/sha512.New>, " + hw(glob("suiteString")) + ", " + hw(glob("challengeGenerationDomainSeparatorFront")) + ", " + hw("p0") + ", " + hw("alt(p1, call<(*ed.Point).Bytes>(p1))") + ", " +
 				hw("call<(*ed.Point).Bytes>(p2)") + ", " + hw("call<(*ed.Point).Bytes>(p3)") + ", " + hw("call<(*ed.Point).Bytes>(p4)") + ", " + hw(glob("challengeGenerationDomainSeparatorBack")) + ")"
 			want := "obj(call<ed.NewScalar>, call<(*ed.Scalar).SetCanonicalBytes>(self, slice(obj(alloc<[32]byte>, call<builtin.copy>(slice(self, 0, 16), slice(call<(hash.Hash).Sum>(" + hist + ", _), 0, 16))), 0, 32)))"
 			_, ok := ana.MatchX(c.P, want, t)
@@ -590,7 +590,7 @@ func c18Hashes(c *Ctx, dec *ssa.Function) {
 		H := "call<*>(slice(p0, 32, none), p1)"
 		k := "obj(call<ed.NewScalar>, call<(*ed.Scalar).SetUniformBytes>(self, call<(hash.Hash).Sum>(obj(call<crypto/sha512.New>, " + hw("slice("+hsk+", 32, none)") + ", " + hw("call<(*ed.Point).Bytes>("+H+")") + "), nil)))"
 		gamma := "obj(alloc<ed.Point>, call<(*ed.Point).ScalarMult>(self, " + x + ", " + H + "))"
-		cc := "call<*>(slice(p0, 32, none), call<(*ed.Point).Bytes>(" + H + "), " + gamma + ", obj(alloc<ed.Point>, call<(*ed.Point).ScalarBaseMult>(self, " + k + ")), obj(alloc<ed.Point>, call<(*ed.Point).ScalarMult>(self, " + k + ", " + H + ")))"
+		cc := "call<*>(slice(p0, 32, none), alt(call<(*ed.Point).Bytes>(" + H + "), " + H + "), " + gamma + ", obj(alloc<ed.Point>, call<(*ed.Point).ScalarBaseMult>(self, " + k + ")), obj(alloc<ed.Point>, call<(*ed.Point).ScalarMult>(self, " + k + ", " + H + ")))"
 		s := "obj(call<ed.NewScalar>, call<(*ed.Scalar).SetUniformBytes>(self, _), call<(*ed.Scalar).MultiplyAdd>(self, " + cc + ", " + x + ", self))"
 		want := "obj(alloc<" + vrfPkg + "Proof>, store(faddr<#0>(self), " + gamma + "), store(faddr<#1>(self), " + cc + "), store(faddr<#2>(self), " + s + "))"
 		for _, e := range ana.Exits(fn) {
